@@ -67,6 +67,9 @@ var faultCatalogue = []faultSpec{
 	{Name: "index-missing-key-variable", Cite: "may", Expr: func() *dsl.Expr { return dsl.Index("m", dsl.Var("nokey")) }},
 	{Name: "index-through-nil-pointer", Cite: "may", Expr: func() *dsl.Expr { return dsl.Index("nilsl", i(0)) }},
 	{Name: "call-missing-function", Cite: "must", OwnRecover: true, Expr: func() *dsl.Expr { return dsl.Call("nofunc", i(1)) }},
+	{Name: "call-missing-function-no-arguments", Cite: "must", OwnRecover: true, Expr: func() *dsl.Expr { return dsl.Call("nofunc0") }},
+	{Name: "call-missing-method-with-argument", Cite: "must", OwnRecover: true, Expr: func() *dsl.Expr { return dsl.Call("O.Nope", i(1)) }},
+	{Name: "call-missing-three-level-method", Cite: "must", OwnRecover: true, Expr: func() *dsl.Expr { return dsl.Call("O.In.Nope") }},
 	{Name: "call-missing-method", Cite: "must", OwnRecover: true, Expr: func() *dsl.Expr { return dsl.Call("O.Nope") }},
 	{Name: "call-missing-object", Cite: "must", OwnRecover: true, Expr: func() *dsl.Expr { return dsl.Call("nobj.Get") }},
 	{Name: "call-panicking-function", Cite: "must", OwnRecover: true, Expr: func() *dsl.Expr { return dsl.Call("boom") }},
